@@ -143,17 +143,35 @@ impl LoomRaw {
 unsafe impl Sync for LoomRaw {}
 unsafe impl Send for LoomRaw {}
 
+/// `loom::thread::spawn` followed by one operation on the object the lock shim uses: loom lets the
+/// spawning thread run on until its next synchronisation operation, so without this the code that
+/// directly follows a spawn (say, an unlocked fast path at the start of a poll) would always
+/// execute before the new thread has done anything.
+fn spawn<F, T>(f: F) -> loom::thread::JoinHandle<T>
+where
+    F: FnOnce() -> T + 'static,
+    T: 'static,
+{
+    let h = loom::thread::spawn(f);
+    unarmed(|| {
+        wtick().fetch_add(1, Ordering::Relaxed);
+    });
+    h
+}
+
 const TICK_POOL: usize = 8;
 static TICKS: std::sync::Mutex<Vec<std::sync::Arc<loom::sync::atomic::AtomicUsize>>> = std::sync::Mutex::new(Vec::new());
 fn next_tick() -> std::sync::Arc<loom::sync::atomic::AtomicUsize> {
-    if WAKER_POINTS.load(Ordering::Relaxed) {
-        // scenarios with scheduling wakers: locks and wakers share one object, so that every
-        // waker operation is dependent with every critical section of the other threads
+    // locks, scheduling wakers and `spawn` share one object, so that every such operation is
+    // dependent with every critical section of the other threads (the per-lock pool is only used
+    // with --per-lock-ticks)
+    if !PER_LOCK_TICKS.load(Ordering::Relaxed) {
         return wtick();
     }
     TICKS.lock().unwrap().pop().unwrap_or_else(|| panic!("MACHINERY: more than {} locks in one execution", TICK_POOL))
 }
 static WAKER_POINTS: std::sync::atomic::AtomicBool = std::sync::atomic::AtomicBool::new(false);
+static PER_LOCK_TICKS: std::sync::atomic::AtomicBool = std::sync::atomic::AtomicBool::new(false);
 static WTICK: std::sync::Mutex<Option<std::sync::Arc<loom::sync::atomic::AtomicUsize>>> = std::sync::Mutex::new(None);
 fn wtick() -> std::sync::Arc<loom::sync::atomic::AtomicUsize> {
     WTICK.lock().unwrap().as_ref().expect("wtick").clone()
@@ -317,7 +335,7 @@ fn swap_mutex(fair: bool) {
     let g = mr.try_lock().unwrap();
     let gptr = SendBox(Box::new(g));
     swap_check("C03", "the lock future", mr.lock(), move || {
-        loom::thread::spawn(move || {
+        spawn(move || {
             let g = gptr;
             // a neutral operation first: the concurrent re-poll may collide with a critical
             // section that does not notify anybody
@@ -350,10 +368,10 @@ fn mutex_notified_drop_contended(fair: bool) {
     drop(g);
     assert_eq!(c1.load(Ordering::SeqCst), 1, "C03: unlock must wake the longest-waiting future");
     let m2 = m.clone();
-    let hx = loom::thread::spawn(move || {
+    let hx = spawn(move || {
         let _ = m2.is_locked();
     });
-    let hd = loom::thread::spawn(move || drop(f1));
+    let hd = spawn(move || drop(f1));
     hx.join().unwrap();
     hd.join().unwrap();
     assert!(c2.load(Ordering::SeqCst) > 0, "C03: a notified lock future was dropped but the wake-up was not passed on");
@@ -381,7 +399,7 @@ fn mutex_barger_holds(fair: bool) {
     assert!(f.as_mut().poll(&mut Context::from_waker(&w)).is_pending());
     let gb = SendBox(Box::new(g));
     let keep = m.clone();
-    let hu = loom::thread::spawn(move || {
+    let hu = spawn(move || {
         let g = gb;
         drop(g);
         let _ = &keep;
@@ -419,7 +437,7 @@ fn sem_barger_holds(fair: bool) {
     assert!(f.as_mut().poll(&mut Context::from_waker(&w)).is_pending());
     let rb = SendBox(Box::new(r));
     let keep = s.clone();
-    let hu = loom::thread::spawn(move || {
+    let hu = spawn(move || {
         let r = rb;
         drop(r);
         let _ = &keep;
@@ -455,10 +473,10 @@ fn sem_notified_drop_contended(fair: bool) {
     s.release(1);
     assert_eq!(c1.load(Ordering::SeqCst), 1, "C06: release must wake the longest-waiting request that fits");
     let s2 = s.clone();
-    let hx = loom::thread::spawn(move || {
+    let hx = spawn(move || {
         let _ = s2.permits();
     });
-    let hd = loom::thread::spawn(move || drop(f1));
+    let hd = spawn(move || drop(f1));
     hx.join().unwrap();
     hd.join().unwrap();
     assert!(c2.load(Ordering::SeqCst) > 0, "C06: a notified acquire future was dropped but the wake-up was not passed on");
@@ -493,7 +511,7 @@ fn mutex_fair_order() {
     assert!(f2.as_mut().poll(&mut Context::from_waker(&w)).is_pending());
     drop(g);
     let keep1 = m.clone();
-    let h2 = loom::thread::spawn(move || {
+    let h2 = spawn(move || {
         // the LATER waiter is polled (possibly first): it may only lock after the earlier one
         loom::future::block_on(async move {
             let g = f2.await;
@@ -502,7 +520,7 @@ fn mutex_fair_order() {
         let _ = &keep1;
     });
     let keep2 = m.clone();
-    let h1 = loom::thread::spawn(move || {
+    let h1 = spawn(move || {
         loom::future::block_on(async move {
             let g = f1.await;
             g.0.with_mut(|v| unsafe { (*v).push(1) });
@@ -532,7 +550,7 @@ fn sem_fair_order() {
     assert!(f2.as_mut().poll(&mut Context::from_waker(&w)).is_pending());
     let (o1, o2) = (order.clone(), order.clone());
     let keep1 = s.clone();
-    let h2 = loom::thread::spawn(move || {
+    let h2 = spawn(move || {
         loom::future::block_on(async move {
             let r = f2.await;
             o2.lock().unwrap().push(2);
@@ -541,7 +559,7 @@ fn sem_fair_order() {
         let _ = &keep1;
     });
     let keep2 = s.clone();
-    let h1 = loom::thread::spawn(move || {
+    let h1 = spawn(move || {
         loom::future::block_on(async move {
             let r = f1.await;
             o1.lock().unwrap().push(1);
@@ -562,7 +580,7 @@ fn swap_sem(fair: bool) {
     let _ = s.permits();
     let s2 = s.clone();
     swap_check("C06", "the acquire future", s.acquire(1), move || {
-        loom::thread::spawn(move || {
+        spawn(move || {
             let _ = s2.permits();
             s2.release(1)
         })
@@ -579,7 +597,7 @@ fn swap_event() {
     let _ = e.is_set();
     let e2 = e.clone();
     swap_check("C14", "the wait future", e.wait(), move || {
-        loom::thread::spawn(move || {
+        spawn(move || {
             let _ = e2.is_set();
             e2.set()
         })
@@ -590,7 +608,7 @@ fn swap_mpmc_recv() {
     let _ = rx.try_receive();
     let rx2 = rx.clone();
     swap_check("C10", "the receive future", rx.receive(), move || {
-        loom::thread::spawn(move || {
+        spawn(move || {
             let _ = rx2.try_receive();
             let _ = tx.try_send(1);
             let _keep = rx2;
@@ -603,7 +621,7 @@ fn swap_mpmc_send() {
     tx.try_send(1).unwrap();
     let tx2 = tx.clone();
     swap_check("C10", "the send future", tx.send(2), move || {
-        loom::thread::spawn(move || {
+        spawn(move || {
             let _ = tx2.try_send(9);
             let _ = rx.try_receive();
             // keep the receiver alive until the sender side is done
@@ -616,7 +634,7 @@ fn swap_oneshot() {
     let _ = poll_once_and_drop(c.receive());
     let c2 = c.clone();
     swap_check("C12", "the receive future", c.receive(), move || {
-        loom::thread::spawn(move || {
+        spawn(move || {
             let _ = c2.send(1);
         })
     });
@@ -626,7 +644,7 @@ fn swap_state() {
     let _ = c.try_receive(StateId::new());
     let c2 = c.clone();
     swap_check("C13", "the state receive future", c.receive(StateId::new()), move || {
-        loom::thread::spawn(move || {
+        spawn(move || {
             let _ = c2.try_receive(StateId::new());
             let _ = c2.send(1);
         })
@@ -638,7 +656,7 @@ fn swap_timer() {
     let _ = t.next_expiration();
     let t2 = t.clone();
     swap_check("C15", "the timer future", Timer::deadline(&*t, 1), move || {
-        loom::thread::spawn(move || {
+        spawn(move || {
             let _ = t2.next_expiration();
             CLK.0.store(1, Ordering::SeqCst);
             t2.check_expirations();
@@ -674,7 +692,7 @@ fn bcast_clone_exclusive() {
     let hs: Vec<_> = (0..2)
         .map(|_| {
             let c = c.clone();
-            loom::thread::spawn(move || {
+            spawn(move || {
                 let got = loom::future::block_on(async { c.receive().await });
                 assert!(got.is_some(), "C12: every receiver gets a clone of the value");
             })
@@ -692,7 +710,7 @@ fn state_clone_exclusive() {
     let hs: Vec<_> = (0..2)
         .map(|_| {
             let c = c.clone();
-            loom::thread::spawn(move || {
+            spawn(move || {
                 let got = loom::future::block_on(async { c.receive(StateId::new()).await });
                 assert!(got.is_some(), "C13: a receiver waiting for something newer gets the published state");
             })
@@ -711,7 +729,7 @@ fn mutex_debug_vs_guard() {
     let m = Arc::new(GenericMutex::<LoomRaw, Tracked>::new(Tracked::new(), false));
     let _ = m.is_locked();
     let m1 = m.clone();
-    let h = loom::thread::spawn(move || {
+    let h = spawn(move || {
         loom::future::block_on(async {
             let g = m1.lock().await;
             g.incr();
@@ -735,38 +753,90 @@ fn mutex_debug_vs_guard() {
 }
 
 // ------------------------------------------------ writes into a completed, dropped future
-/// Storage for a future that is dropped in place and then filled with a poison pattern; the memory
-/// stays allocated, so a library that still writes to the "dropped future" (C01) changes the pattern
-/// instead of corrupting the allocator.
+/// Storage for a future that is dropped in place and whose memory is then made inaccessible
+/// (its own pages, `mprotect(PROT_NONE)`): a library that still reads or writes the "dropped
+/// future" (C01) faults, and the SIGSEGV handler below turns a fault inside such a region into a
+/// C01 report instead of a crash or silent corruption of the allocator.
 struct PoisonBox<F> {
-    mem: Box<std::mem::MaybeUninit<F>>,
+    mem: *mut F,
+    len: usize,
     alive: bool,
+}
+const MAX_POISON: usize = 8;
+static POISON: [(AtomicUsize, AtomicUsize); MAX_POISON] = [
+    (AtomicUsize::new(0), AtomicUsize::new(0)),
+    (AtomicUsize::new(0), AtomicUsize::new(0)),
+    (AtomicUsize::new(0), AtomicUsize::new(0)),
+    (AtomicUsize::new(0), AtomicUsize::new(0)),
+    (AtomicUsize::new(0), AtomicUsize::new(0)),
+    (AtomicUsize::new(0), AtomicUsize::new(0)),
+    (AtomicUsize::new(0), AtomicUsize::new(0)),
+    (AtomicUsize::new(0), AtomicUsize::new(0)),
+];
+extern "C" fn on_segv(_sig: libc::c_int, info: *mut libc::siginfo_t, _ctx: *mut libc::c_void) {
+    let addr = unsafe { (*info).si_addr() } as usize;
+    let hit = POISON.iter().any(|(s, l)| {
+        let (s, l) = (s.load(Ordering::Relaxed), l.load(Ordering::Relaxed));
+        s != 0 && addr >= s && addr < s + l
+    });
+    let msg: &[u8] = if hit {
+        b"\nthread 'main' panicked at poisonbox:\nC01: a library call accessed the memory of a future after it had completed and been dropped\n"
+    } else {
+        b"\nfiloom: SIGSEGV outside every poisoned region (harness or library crash)\n"
+    };
+    unsafe {
+        libc::write(2, msg.as_ptr() as *const libc::c_void, msg.len());
+        libc::_exit(if hit { 101 } else { 139 });
+    }
+}
+fn install_segv_handler() {
+    unsafe {
+        // the handler runs on its own stack (the fault may happen on a small coroutine stack)
+        let sz = 64 * 1024;
+        let stack = libc::mmap(std::ptr::null_mut(), sz, libc::PROT_READ | libc::PROT_WRITE, libc::MAP_PRIVATE | libc::MAP_ANONYMOUS, -1, 0);
+        let ss = libc::stack_t { ss_sp: stack, ss_flags: 0, ss_size: sz };
+        libc::sigaltstack(&ss, std::ptr::null_mut());
+        let mut sa: libc::sigaction = std::mem::zeroed();
+        sa.sa_sigaction = on_segv as usize;
+        sa.sa_flags = libc::SA_SIGINFO | libc::SA_ONSTACK;
+        libc::sigaction(libc::SIGSEGV, &sa, std::ptr::null_mut());
+        libc::sigaction(libc::SIGBUS, &sa, std::ptr::null_mut());
+    }
 }
 impl<F> PoisonBox<F> {
     fn new(f: F) -> Self {
-        PoisonBox { mem: Box::new(std::mem::MaybeUninit::new(f)), alive: true }
+        let len = (std::mem::size_of::<F>().max(1) + 4095) / 4096 * 4096;
+        let mem = unsafe { libc::mmap(std::ptr::null_mut(), len, libc::PROT_READ | libc::PROT_WRITE, libc::MAP_PRIVATE | libc::MAP_ANONYMOUS, -1, 0) };
+        assert!(mem != libc::MAP_FAILED, "MACHINERY: mmap failed");
+        let mem = mem as *mut F;
+        unsafe { mem.write(f) };
+        PoisonBox { mem, len, alive: true }
     }
     fn pin(&mut self) -> Pin<&mut F> {
         assert!(self.alive);
-        unsafe { Pin::new_unchecked(&mut *self.mem.as_mut_ptr()) }
+        unsafe { Pin::new_unchecked(&mut *self.mem) }
     }
     fn kill(&mut self) {
         assert!(self.alive);
         unsafe {
-            std::ptr::drop_in_place(self.mem.as_mut_ptr());
-            std::ptr::write_bytes(self.mem.as_mut_ptr() as *mut u8, 0xA5, std::mem::size_of::<F>());
+            std::ptr::drop_in_place(self.mem);
+            libc::mprotect(self.mem as *mut libc::c_void, self.len, libc::PROT_NONE);
         }
+        let slot = POISON.iter().find(|(s, _)| s.load(Ordering::Relaxed) == 0).expect("MACHINERY: too many poisoned regions");
+        slot.1.store(self.len, Ordering::Relaxed);
+        slot.0.store(self.mem as usize, Ordering::Relaxed);
         self.alive = false;
-    }
-    fn untouched(&self) -> bool {
-        let p = self.mem.as_ptr() as *const u8;
-        (0..std::mem::size_of::<F>()).all(|i| unsafe { *p.add(i) } == 0xA5)
     }
 }
 impl<F> Drop for PoisonBox<F> {
     fn drop(&mut self) {
-        if self.alive {
-            unsafe { std::ptr::drop_in_place(self.mem.as_mut_ptr()) };
+        unsafe {
+            if self.alive {
+                std::ptr::drop_in_place(self.mem);
+            } else if let Some(slot) = POISON.iter().find(|(s, _)| s.load(Ordering::Relaxed) == self.mem as usize) {
+                slot.0.store(0, Ordering::Relaxed);
+            }
+            libc::munmap(self.mem as *mut libc::c_void, self.len);
         }
     }
 }
@@ -783,7 +853,7 @@ fn timer_expire_vs_complete() {
     let (w, c) = counting_waker();
     assert!(f.pin().poll(&mut Context::from_waker(&w)).is_pending());
     let t1 = t.clone();
-    let h = loom::thread::spawn(move || {
+    let h = spawn(move || {
         CLK.0.store(1, Ordering::SeqCst);
         t1.check_expirations();
     });
@@ -793,13 +863,11 @@ fn timer_expire_vs_complete() {
         killed = true;
     }
     h.join().unwrap();
-    if killed {
-        assert!(f.untouched(), "C01: the timer wrote into a future after it had completed and been dropped");
-    } else {
+    // (an access to the dropped future by the timer thread is reported by the SIGSEGV handler)
+    if !killed {
         assert!(c.load(Ordering::SeqCst) > 0, "C15: check_expirations() ran with clock >= deadline but the registered future was not woken");
         assert!(f.pin().poll(&mut Context::from_waker(&w)).is_ready(), "C15: due timer future does not complete");
         f.kill();
-        assert!(f.untouched());
     }
     epilogue_timer(&t, 1);
 }
@@ -816,16 +884,14 @@ fn event_set_vs_complete() {
     assert!(f2.as_mut().poll(&mut Context::from_waker(&w2)).is_pending());
     assert!(f.pin().poll(&mut Context::from_waker(&w)).is_pending());
     let e1 = e.clone();
-    let h = loom::thread::spawn(move || e1.set());
+    let h = spawn(move || e1.set());
     let mut killed = false;
     if f.pin().poll(&mut Context::from_waker(&w)).is_ready() {
         f.kill();
         killed = true;
     }
     h.join().unwrap();
-    if killed {
-        assert!(f.untouched(), "C01: set() wrote into a wait future after it had completed and been dropped");
-    } else {
+    if !killed {
         assert!(c.load(Ordering::SeqCst) > 0, "C14: set() did not wake a pending waiter");
         assert!(f.pin().poll(&mut Context::from_waker(&w)).is_ready(), "C14: wait future pending although the event is set");
         f.kill();
@@ -856,9 +922,9 @@ fn event_many_set_vs_reset() {
         assert!(f.as_mut().poll(&mut Context::from_waker(&w)).is_pending());
     }
     let e1 = e.clone();
-    let h1 = loom::thread::spawn(move || e1.set());
+    let h1 = spawn(move || e1.set());
     let e2 = e.clone();
-    let h2 = loom::thread::spawn(move || {
+    let h2 = spawn(move || {
         e2.reset();
         let er: &'static GenericManualResetEvent<LoomRaw> = unsafe { &*(&*e2 as *const GenericManualResetEvent<LoomRaw>) };
         let mut g = Box::pin(er.wait());
@@ -902,9 +968,9 @@ fn timer_many_vs_abandon() {
     let victim = SendBox(Box::new(parked.remove(MANY / 2)));
     CLK.0.store(1, Ordering::SeqCst);
     let t1 = t.clone();
-    let h1 = loom::thread::spawn(move || t1.check_expirations());
+    let h1 = spawn(move || t1.check_expirations());
     let t2 = t.clone();
-    let h2 = loom::thread::spawn(move || {
+    let h2 = spawn(move || {
         drop(victim);
         let tr: &'static GenericTimerService<LoomRaw> = unsafe { &*(&*t2 as *const GenericTimerService<LoomRaw>) };
         let mut late = Box::pin(Timer::deadline(tr, 5));
@@ -960,7 +1026,7 @@ fn alloc_race_timer() {
     let hs: Vec<_> = (0..2)
         .map(|_| {
             let t = t.clone();
-            loom::thread::spawn(move || armed(|| t.check_expirations()))
+            spawn(move || armed(|| t.check_expirations()))
         })
         .collect();
     for h in hs {
@@ -985,7 +1051,7 @@ fn alloc_race_event() {
     let hs: Vec<_> = (0..2)
         .map(|_| {
             let e = e.clone();
-            loom::thread::spawn(move || armed(|| e.set()))
+            spawn(move || armed(|| e.set()))
         })
         .collect();
     for h in hs {
@@ -1010,7 +1076,7 @@ fn alloc_race_sem() {
     let hs: Vec<_> = (0..2)
         .map(|_| {
             let s = s.clone();
-            loom::thread::spawn(move || armed(|| s.release(MANY / 2)))
+            spawn(move || armed(|| s.release(MANY / 2)))
         })
         .collect();
     for h in hs {
@@ -1167,7 +1233,7 @@ fn mutex_counter(fair: bool) {
     let hs: Vec<_> = (0..2)
         .map(|_| {
             let m = m.clone();
-            loom::thread::spawn(move || {
+            spawn(move || {
                 loom::future::block_on(async {
                     let g = m.lock().await;
                     g.incr();
@@ -1200,14 +1266,14 @@ fn mutex_abandon(fair: bool) {
     let m = Arc::new(GenericMutex::<LoomRaw, Tracked>::new(Tracked::new(), fair));
     let _ = m.is_locked();
     let m1 = m.clone();
-    let h1 = loom::thread::spawn(move || {
+    let h1 = spawn(move || {
         // abandoning task: if it gets the lock at once it uses it
         if let Some(g) = poll_once_and_drop(m1.lock()) {
             g.incr();
         }
     });
     let m2 = m.clone();
-    let h2 = loom::thread::spawn(move || {
+    let h2 = spawn(move || {
         loom::future::block_on(async {
             let g = m2.lock().await;
             g.incr();
@@ -1233,20 +1299,20 @@ fn mutex_cancel_in_queue(fair: bool) {
     let _ = m.is_locked();
     let g = m.try_lock().expect("fresh mutex must be lockable");
     let m1 = m.clone();
-    let h1 = loom::thread::spawn(move || {
+    let h1 = spawn(move || {
         loom::future::block_on(async {
             let g = m1.lock().await;
             g.incr();
         });
     });
     let m2 = m.clone();
-    let h2 = loom::thread::spawn(move || {
+    let h2 = spawn(move || {
         if let Some(g) = poll_once_and_drop(m2.lock()) {
             g.incr();
         }
     });
     let m3 = m.clone();
-    let h3 = loom::thread::spawn(move || {
+    let h3 = spawn(move || {
         loom::future::block_on(async {
             let g = m3.lock().await;
             g.incr();
@@ -1286,7 +1352,7 @@ fn sem_mixed(fair: bool) {
         .iter()
         .map(|&n| {
             let s = s.clone();
-            loom::thread::spawn(move || {
+            spawn(move || {
                 loom::future::block_on(async {
                     let _r = s.acquire(n).await;
                 });
@@ -1314,14 +1380,14 @@ fn sem_timeout(fair: bool) {
     let s = Arc::new(GenericSemaphore::<LoomRaw>::new(fair, 0));
     let _ = s.permits();
     let s1 = s.clone();
-    let h1 = loom::thread::spawn(move || {
+    let h1 = spawn(move || {
         if let Some(mut r) = poll_once_and_drop(s1.acquire(3)) {
             r.disarm();
             panic!("C05: acquire(3) completed with at most 1 permit available");
         }
     });
     let s2 = s.clone();
-    let h2 = loom::thread::spawn(move || {
+    let h2 = spawn(move || {
         loom::future::block_on(async {
             let mut r = s2.acquire(1).await;
             r.disarm();
@@ -1345,13 +1411,13 @@ fn sem_thief() {
     let s = Arc::new(GenericSemaphore::<LoomRaw>::new(false, 0));
     let _ = s.permits();
     let s1 = s.clone();
-    let h1 = loom::thread::spawn(move || {
+    let h1 = spawn(move || {
         loom::future::block_on(async {
             let _r = s1.acquire(2).await;
         });
     });
     let s2 = s.clone();
-    let h2 = loom::thread::spawn(move || {
+    let h2 = spawn(move || {
         loom::future::block_on(async {
             let _r = s2.acquire(1).await;
         });
@@ -1373,7 +1439,7 @@ fn sem_try_conserve() {
     let hs: Vec<_> = (0..2)
         .map(|_| {
             let s = s.clone();
-            loom::thread::spawn(move || {
+            spawn(move || {
                 if let Some(r) = s.try_acquire(1) {
                     drop(r);
                 }
@@ -1397,7 +1463,7 @@ fn sem_shared_mixed() {
         .iter()
         .map(|&n| {
             let s = s.clone();
-            loom::thread::spawn(move || {
+            spawn(move || {
                 loom::future::block_on(async {
                     let _r = s.acquire(n).await;
                 });
@@ -1419,13 +1485,13 @@ fn event_set_reset_set() {
     let e = Arc::new(GenericManualResetEvent::<LoomRaw>::new(false));
     let _ = e.is_set();
     let e1 = e.clone();
-    let h1 = loom::thread::spawn(move || {
+    let h1 = spawn(move || {
         loom::future::block_on(async {
             e1.wait().await;
         });
     });
     let e2 = e.clone();
-    let h2 = loom::thread::spawn(move || {
+    let h2 = spawn(move || {
         let _ = poll_once_and_drop(e2.wait());
     });
     e.set();
@@ -1450,12 +1516,12 @@ fn event_set_vs_abandon() {
     assert!(f1.as_mut().poll(&mut Context::from_waker(&w1)).is_pending());
     assert!(f2.as_mut().poll(&mut Context::from_waker(&w2)).is_pending());
     let keep = e.clone();
-    let h1 = loom::thread::spawn(move || {
+    let h1 = spawn(move || {
         drop(f1);
         let _ = &keep;
     });
     let e2 = e.clone();
-    let h2 = loom::thread::spawn(move || e2.set());
+    let h2 = spawn(move || e2.set());
     h1.join().unwrap();
     h2.join().unwrap();
     assert!(c2.load(Ordering::SeqCst) > 0, "C14: set() did not wake a pending waiter");
@@ -1475,12 +1541,12 @@ fn event_set_vs_abandon_tail() {
     assert!(f1.as_mut().poll(&mut Context::from_waker(&w1)).is_pending());
     assert!(f2.as_mut().poll(&mut Context::from_waker(&w2)).is_pending());
     let keep = e.clone();
-    let h1 = loom::thread::spawn(move || {
+    let h1 = spawn(move || {
         drop(f2);
         let _ = &keep;
     });
     let e2 = e.clone();
-    let h2 = loom::thread::spawn(move || e2.set());
+    let h2 = spawn(move || e2.set());
     h1.join().unwrap();
     h2.join().unwrap();
     assert!(c1.load(Ordering::SeqCst) > 0, "C14: set() did not wake a pending waiter");
@@ -1494,7 +1560,7 @@ fn event_two_waiters() {
     let hs: Vec<_> = (0..2)
         .map(|_| {
             let e = e.clone();
-            loom::thread::spawn(move || {
+            spawn(move || {
                 loom::future::block_on(async {
                     e.wait().await;
                 });
@@ -1522,9 +1588,9 @@ fn event_set_vs_reset() {
     let (w1, c1) = counting_waker();
     assert!(fut.as_mut().poll(&mut Context::from_waker(&w1)).is_pending());
     let e1 = e.clone();
-    let h1 = loom::thread::spawn(move || e1.set());
+    let h1 = spawn(move || e1.set());
     let e2 = e.clone();
-    let h2 = loom::thread::spawn(move || e2.reset());
+    let h2 = spawn(move || e2.reset());
     h1.join().unwrap();
     h2.join().unwrap();
     assert!(c1.load(Ordering::SeqCst) > 0, "C14: set() was called while the waiter was pending but it was not woken");
@@ -1539,9 +1605,9 @@ fn event_setters_race() {
     let e = Arc::new(GenericManualResetEvent::<LoomRaw>::new(false));
     let _ = e.is_set();
     let e1 = e.clone();
-    let h1 = loom::thread::spawn(move || e1.set());
+    let h1 = spawn(move || e1.set());
     let e2 = e.clone();
-    let h2 = loom::thread::spawn(move || {
+    let h2 = spawn(move || {
         e2.set();
         e2.reset();
     });
@@ -1578,10 +1644,10 @@ fn mpmc_last_receiver_clears() {
     assert!(tx.try_send(DropCount(drops.clone())).is_ok());
     let tx2 = tx.clone();
     let d2 = drops.clone();
-    let h1 = loom::thread::spawn(move || {
+    let h1 = spawn(move || {
         let _ = tx2.try_send(DropCount(d2));
     });
-    let h2 = loom::thread::spawn(move || drop(rx));
+    let h2 = spawn(move || drop(rx));
     h1.join().unwrap();
     h2.join().unwrap();
     assert_eq!(drops.load(Ordering::SeqCst), 2, "C11: the last receiver was dropped but buffered values are still alive inside the channel");
@@ -1602,10 +1668,10 @@ fn mpmc_notified_drop_contended() {
     tx.try_send(1).unwrap();
     assert_eq!(c1.load(Ordering::SeqCst), 1, "C10: the oldest receiver must be woken by the send");
     let tx2 = tx.clone();
-    let hx = loom::thread::spawn(move || {
+    let hx = spawn(move || {
         let _ = tx2.try_send(2); // Full: a critical section that notifies nobody
     });
-    let hd = loom::thread::spawn(move || drop(r1));
+    let hd = spawn(move || drop(r1));
     hx.join().unwrap();
     hd.join().unwrap();
     assert!(c2.load(Ordering::SeqCst) > 0, "C10: a notified receiver was dropped but the wake-up was not passed on to the next pending receiver");
@@ -1623,7 +1689,7 @@ fn mpmc_cancel_vs_receive(cap: usize) {
     let (w1, _c1) = counting_waker();
     assert!(fut.as_mut().poll(&mut Context::from_waker(&w1)).is_pending());
     let rx2 = rx.clone();
-    let h = loom::thread::spawn(move || {
+    let h = spawn(move || {
         let mut got = vec![];
         for _ in 0..=cap {
             if let Ok(v) = rx2.try_receive() {
@@ -1663,9 +1729,9 @@ fn mpmc_close_vs_abandon_v(rev: bool) {
         assert!(r1.as_mut().poll(&mut Context::from_waker(&w1)).is_pending());
         assert!(r2.as_mut().poll(&mut Context::from_waker(&w2)).is_pending());
     }
-    let h1 = loom::thread::spawn(move || drop(r1));
+    let h1 = spawn(move || drop(r1));
     let tx2 = tx.clone();
-    let h2 = loom::thread::spawn(move || {
+    let h2 = spawn(move || {
         let _ = tx2.close();
     });
     h1.join().unwrap();
@@ -1689,7 +1755,7 @@ fn mpmc_double_close() {
     let hs: Vec<_> = (0..2u32)
         .map(|i| {
             let tx = tx.clone();
-            loom::thread::spawn(move || {
+            spawn(move || {
                 let _ = tx.close();
                 assert!(tx.try_send(i).is_err(), "C11: a send succeeded after close() had returned");
             })
@@ -1711,9 +1777,9 @@ fn mpmc_refill_race() {
     let (w1, _c1) = counting_waker();
     assert!(parked.as_mut().poll(&mut Context::from_waker(&w1)).is_pending());
     let rx2 = rx.clone();
-    let h1 = loom::thread::spawn(move || rx2.try_receive().ok());
+    let h1 = spawn(move || rx2.try_receive().ok());
     let tx2 = tx.clone();
-    let h2 = loom::thread::spawn(move || tx2.try_send(3).is_ok());
+    let h2 = spawn(move || tx2.try_send(3).is_ok());
     let first = h1.join().unwrap();
     let third_accepted = h2.join().unwrap();
     assert_eq!(first, Some(1), "C09: the buffered value must be received first");
@@ -1742,7 +1808,7 @@ fn mpmc_2p1c(cap: usize, second: bool) {
     let hs: Vec<_> = (0..2u32)
         .map(|i| {
             let tx = tx.clone();
-            loom::thread::spawn(move || {
+            spawn(move || {
                 loom::future::block_on(async {
                     tx.send(i * 10).await.unwrap();
                     if i == 0 && second {
@@ -1785,11 +1851,11 @@ fn mpmc_abandon(cap: usize) {
     let (tx, rx) = sh::generic_channel::<LoomRaw, u32, FixedHeapBuf<u32>>(cap);
     let _ = rx.try_receive();
     let rx2 = rx.clone();
-    let h1 = loom::thread::spawn(move || match poll_once_and_drop(rx2.receive()) {
+    let h1 = spawn(move || match poll_once_and_drop(rx2.receive()) {
         Some(v) => v,
         None => None,
     });
-    let h2 = loom::thread::spawn(move || {
+    let h2 = spawn(move || {
         loom::future::block_on(async {
             tx.send(7).await.unwrap();
         });
@@ -1811,10 +1877,10 @@ fn mpmc_last_sender_closes() {
     let (tx, rx) = sh::generic_channel::<LoomRaw, u32, FixedHeapBuf<u32>>(1);
     let _ = rx.try_receive();
     let tx2 = tx.clone();
-    let h1 = loom::thread::spawn(move || {
+    let h1 = spawn(move || {
         drop(tx);
     });
-    let h2 = loom::thread::spawn(move || {
+    let h2 = spawn(move || {
         let _ = tx2.try_send(5);
         drop(tx2);
     });
@@ -1838,8 +1904,8 @@ fn mpmc_orphan_recv() {
     let mut r = Box::pin(rx.receive());
     let (w, c) = counting_waker();
     assert!(r.as_mut().poll(&mut Context::from_waker(&w)).is_pending());
-    let h1 = loom::thread::spawn(move || drop(tx));
-    let h2 = loom::thread::spawn(move || drop(rx));
+    let h1 = spawn(move || drop(tx));
+    let h2 = spawn(move || drop(rx));
     h1.join().unwrap();
     h2.join().unwrap();
     assert!(c.load(Ordering::SeqCst) > 0, "C10: every handle is gone (channel closed) but the pending receive future was not woken");
@@ -1852,8 +1918,8 @@ fn mpmc_orphan_send() {
     let mut f = Box::pin(tx.send(7));
     let (w, c) = counting_waker();
     assert!(f.as_mut().poll(&mut Context::from_waker(&w)).is_pending());
-    let h1 = loom::thread::spawn(move || drop(tx));
-    let h2 = loom::thread::spawn(move || drop(rx));
+    let h1 = spawn(move || drop(tx));
+    let h2 = spawn(move || drop(rx));
     h1.join().unwrap();
     h2.join().unwrap();
     assert!(c.load(Ordering::SeqCst) > 0, "C10: every handle is gone (channel closed) but the pending send future was not woken");
@@ -1869,8 +1935,8 @@ fn state_orphan_recv() {
     let mut r = Box::pin(rx.receive(StateId::new()));
     let (w, c) = counting_waker();
     assert!(r.as_mut().poll(&mut Context::from_waker(&w)).is_pending());
-    let h1 = loom::thread::spawn(move || drop(tx));
-    let h2 = loom::thread::spawn(move || drop(rx));
+    let h1 = spawn(move || drop(tx));
+    let h2 = spawn(move || drop(rx));
     h1.join().unwrap();
     h2.join().unwrap();
     assert!(c.load(Ordering::SeqCst) > 0, "C13: every handle is gone (channel closed) but the pending receive future was not woken");
@@ -1883,8 +1949,8 @@ fn bcast_orphan_recv() {
     let mut r = Box::pin(rx.receive());
     let (w, c) = counting_waker();
     assert!(r.as_mut().poll(&mut Context::from_waker(&w)).is_pending());
-    let h1 = loom::thread::spawn(move || drop(tx));
-    let h2 = loom::thread::spawn(move || drop(rx));
+    let h1 = spawn(move || drop(tx));
+    let h2 = spawn(move || drop(rx));
     h1.join().unwrap();
     h2.join().unwrap();
     assert!(c.load(Ordering::SeqCst) > 0, "C12: every handle is gone (channel closed) but the pending receive future was not woken");
@@ -1896,8 +1962,8 @@ fn oneshot_orphan_recv() {
     let mut r = Box::pin(rx.receive());
     let (w, c) = counting_waker();
     assert!(r.as_mut().poll(&mut Context::from_waker(&w)).is_pending());
-    let h1 = loom::thread::spawn(move || drop(tx));
-    let h2 = loom::thread::spawn(move || drop(rx));
+    let h1 = spawn(move || drop(tx));
+    let h2 = spawn(move || drop(rx));
     h1.join().unwrap();
     h2.join().unwrap();
     assert!(c.load(Ordering::SeqCst) > 0, "C12: every handle is gone (channel closed) but the pending receive future was not woken");
@@ -1911,12 +1977,12 @@ fn mpmc_transient_clone() {
     let _ = rx.try_receive();
     let tx_a = tx.clone();
     let tx_b = tx.clone();
-    let h1 = loom::thread::spawn(move || {
+    let h1 = spawn(move || {
         let t = tx_a.clone();
         drop(t);
         drop(tx_a);
     });
-    let h2 = loom::thread::spawn(move || {
+    let h2 = spawn(move || {
         drop(tx_b);
     });
     h1.join().unwrap();
@@ -1933,8 +1999,8 @@ fn mpmc_receiver_clones() {
     let _ = rx.try_receive();
     let rx_a = rx.clone();
     let rx_b = rx.clone();
-    let h1 = loom::thread::spawn(move || drop(rx_a));
-    let h2 = loom::thread::spawn(move || {
+    let h1 = spawn(move || drop(rx_a));
+    let h2 = spawn(move || {
         let r = rx_b.clone();
         drop(rx_b);
         drop(r);
@@ -1952,12 +2018,12 @@ fn state_handles_race() {
     let rx_a = rx.clone();
     let rx_b = rx.clone();
     let tx_a = tx.clone();
-    let h1 = loom::thread::spawn(move || {
+    let h1 = spawn(move || {
         drop(rx_a);
         drop(tx_a);
     });
     let tx_b = tx.clone();
-    let h2 = loom::thread::spawn(move || {
+    let h2 = spawn(move || {
         drop(rx_b);
         let t = tx_b.clone();
         drop(t);
@@ -1982,8 +2048,8 @@ fn bcast_handles_race() {
     let _ = poll_once_and_drop(rx.receive());
     let rx_a = rx.clone();
     let rx_b = rx.clone();
-    let h1 = loom::thread::spawn(move || drop(rx_a));
-    let h2 = loom::thread::spawn(move || drop(rx_b));
+    let h1 = spawn(move || drop(rx_a));
+    let h2 = spawn(move || drop(rx_b));
     h1.join().unwrap();
     h2.join().unwrap();
     assert!(tx.send(5).is_ok(), "C11: oneshot broadcast channel closed although the sender and a receiver handle are alive");
@@ -1996,7 +2062,7 @@ fn mpmc_stream_consumer() {
     use futures_core::stream::{FusedStream, Stream};
     let (tx, rx) = sh::generic_channel::<LoomRaw, u32, FixedHeapBuf<u32>>(1);
     let _ = rx.try_receive();
-    let h = loom::thread::spawn(move || {
+    let h = spawn(move || {
         loom::future::block_on(async {
             tx.send(1).await.unwrap();
             tx.send(2).await.unwrap();
@@ -2022,7 +2088,7 @@ fn mpmc_close_vs_send() {
     let (tx, rx) = sh::generic_channel::<LoomRaw, u32, FixedHeapBuf<u32>>(1);
     let _ = rx.try_receive();
     let tx2 = tx.clone();
-    let h = loom::thread::spawn(move || {
+    let h = spawn(move || {
         let mut ok = vec![];
         loom::future::block_on(async {
             for v in [1u32, 2] {
@@ -2050,7 +2116,7 @@ fn mpmc_close_vs_send() {
 fn oneshot_shared_send_then_drop() {
     let (tx, rx) = sh::generic_oneshot_channel::<LoomRaw, u32>();
     let _ = poll_once_and_drop(rx.receive());
-    let h = loom::thread::spawn(move || {
+    let h = spawn(move || {
         assert!(tx.send(3).is_ok(), "C12: first send must succeed");
         drop(tx);
     });
@@ -2063,7 +2129,7 @@ fn oneshot_shared_send_then_drop() {
 fn oneshot_shared_drop_only() {
     let (tx, rx) = sh::generic_oneshot_channel::<LoomRaw, u32>();
     let _ = poll_once_and_drop(rx.receive());
-    let h = loom::thread::spawn(move || drop(tx));
+    let h = spawn(move || drop(tx));
     let v = loom::future::block_on(async { rx.receive().await });
     h.join().unwrap();
     assert_eq!(v, None, "C11: receive must yield None after the sender was dropped");
@@ -2076,7 +2142,7 @@ fn oneshot_competing() {
     let hs: Vec<_> = (0..2)
         .map(|_| {
             let c = c.clone();
-            loom::thread::spawn(move || loom::future::block_on(async { c.receive().await }))
+            spawn(move || loom::future::block_on(async { c.receive().await }))
         })
         .collect();
     assert!(c.send(9).is_ok(), "C12: first send must succeed");
@@ -2092,7 +2158,7 @@ fn broadcast_all() {
     let hs: Vec<_> = (0..2)
         .map(|_| {
             let c = c.clone();
-            loom::thread::spawn(move || loom::future::block_on(async { c.receive().await }))
+            spawn(move || loom::future::block_on(async { c.receive().await }))
         })
         .collect();
     assert!(c.send(9).is_ok());
@@ -2111,7 +2177,7 @@ fn state_followers() {
     let hs: Vec<_> = (0..2)
         .map(|_| {
             let c = c.clone();
-            loom::thread::spawn(move || {
+            spawn(move || {
                 loom::future::block_on(async {
                     let mut id = StateId::new();
                     let mut last = 0;
@@ -2152,12 +2218,12 @@ fn state_send_vs_abandon_v(rev: bool) {
         assert!(r2.as_mut().poll(&mut Context::from_waker(&w2)).is_pending());
     }
     let keep = c.clone();
-    let h1 = loom::thread::spawn(move || {
+    let h1 = spawn(move || {
         drop(r1);
         let _ = &keep;
     });
     let c2h = c.clone();
-    let h2 = loom::thread::spawn(move || {
+    let h2 = spawn(move || {
         c2h.send(7).unwrap();
     });
     h1.join().unwrap();
@@ -2194,12 +2260,12 @@ fn bcast_send_vs_abandon_v(rev: bool) {
         assert!(r2.as_mut().poll(&mut Context::from_waker(&w2)).is_pending());
     }
     let keep = c.clone();
-    let h1 = loom::thread::spawn(move || {
+    let h1 = spawn(move || {
         drop(r1);
         let _ = &keep;
     });
     let c2h = c.clone();
-    let h2 = loom::thread::spawn(move || {
+    let h2 = spawn(move || {
         let _ = c2h.send(7);
     });
     h1.join().unwrap();
@@ -2221,7 +2287,7 @@ fn state_try_receive_contended() {
     let _ = c.try_receive(StateId::new());
     c.send(1).unwrap();
     let c2 = c.clone();
-    let h = loom::thread::spawn(move || {
+    let h = spawn(move || {
         c2.send(2).unwrap();
     });
     let r = c.try_receive(StateId::new());
@@ -2243,7 +2309,7 @@ fn timer_check_contended() {
     assert!(fut.as_mut().poll(&mut Context::from_waker(&w1)).is_pending());
     CLK.0.store(1, Ordering::SeqCst);
     let t2 = t.clone();
-    let h = loom::thread::spawn(move || {
+    let h = spawn(move || {
         let _ = t2.next_expiration();
         let _ = poll_once_and_drop(Timer::deadline(&*t2, 5));
     });
@@ -2263,7 +2329,7 @@ fn timer_two_waiters() {
         .iter()
         .map(|&d| {
             let t = t.clone();
-            loom::thread::spawn(move || {
+            spawn(move || {
                 loom::future::block_on(async {
                     Timer::deadline(&*t, d).await;
                     assert!(CLK.now() >= d, "C15: timer completed early");
@@ -2289,11 +2355,11 @@ fn timer_abandon() {
     let t = Arc::new(GenericTimerService::<LoomRaw>::new(&CLK));
     let _ = t.next_expiration();
     let t1 = t.clone();
-    let h1 = loom::thread::spawn(move || {
+    let h1 = spawn(move || {
         let _ = poll_once_and_drop(Timer::deadline(&*t1, 1));
     });
     let t2 = t.clone();
-    let h2 = loom::thread::spawn(move || {
+    let h2 = spawn(move || {
         loom::future::block_on(async {
             Timer::deadline(&*t2, 1).await;
             assert!(CLK.now() >= 1, "C15: timer completed early");
@@ -2419,12 +2485,16 @@ fn main() {
                 futures_intrusive::verif::sync::set_sched_hook(Some(sched_hook));
             }
             let pb = args.iter().position(|a| a == "--pb").and_then(|i| args.get(i + 1)).map(|s| s.as_str()).unwrap_or("2");
+            if args.iter().any(|a| a == "--per-lock-ticks") {
+                PER_LOCK_TICKS.store(true, Ordering::Relaxed);
+            }
             if args.iter().any(|a| a == "--no-preempt-after-unlock") {
                 PREEMPT_AFTER_UNLOCK.store(false, Ordering::Relaxed);
             }
             if args.iter().any(|a| a == "--no-preempt-in-cs") {
                 PREEMPT_IN_CS.store(false, Ordering::Relaxed);
             }
+            install_segv_handler();
             let mut b = loom::model::Builder::new();
             b.preemption_bound = if pb == "none" { None } else { Some(pb.parse().expect("preemption bound")) };
             b.max_branches = 20_000;
